@@ -40,3 +40,44 @@ Fixpoint valid_seq (present : bool) (s : list call) : bool :=
 (* real-time order is respected: nobody later in the sequence had returned before an earlier one was invoked *)
 Fixpoint respects_rt (s : list call) : bool :=
   match s with [] => true | c :: r => minimal c r && respects_rt r end.
+
+(* ---- checking a witness (polynomial): the harness's own search hands over the order it found ---- *)
+Definition kop_eq_dec (a b : kop) : {a = b} + {a <> b}. Proof. decide equality. Defined.
+Definition call_eq_dec (a b : call) : {a = b} + {a <> b}.
+Proof. decide equality; [apply bool_dec|apply kop_eq_dec|apply Nat.eq_dec|apply Nat.eq_dec]. Defined.
+Definition same_calls (s l : list call) : bool :=
+  forallb (fun c => Nat.eqb (count_occ call_eq_dec s c) (count_occ call_eq_dec l c)) (s ++ l).
+Definition check_witness (present : bool) (l s : list call) : bool := same_calls s l && valid_seq present s && respects_rt s.
+
+(* ---- the whole store: a set of refs; an enumeration reads every ref at once ---- *)
+Inductive gop := GReceive (k : nat) | GRemove (k : nat) | GRead (k : nat) (seen : bool) | GEnum (listed : list nat).
+Record gcall := { g_inv : nat; g_ret : nat; g_op : gop }.
+Definition gstate := nat -> bool.
+Definition g_ok (st : gstate) (c : gcall) : Prop :=
+  match g_op c with
+  | GRead k seen => seen = st k
+  | GEnum listed => forall k, existsb (Nat.eqb k) listed = st k
+  | _ => True
+  end.
+Definition g_next (st : gstate) (c : gcall) : gstate :=
+  match g_op c with
+  | GReceive k => fun x => if Nat.eqb x k then true else st x
+  | GRemove k => fun x => if Nat.eqb x k then false else st x
+  | _ => st
+  end.
+Fixpoint g_valid (st : gstate) (s : list gcall) : Prop :=
+  match s with [] => True | c :: r => g_ok st c /\ g_valid (g_next st c) r end.
+Definition g_minimal (c : gcall) (rest : list gcall) : bool := forallb (fun d => negb (Nat.ltb (g_ret d) (g_inv c))) rest.
+Fixpoint g_respects_rt (s : list gcall) : bool := match s with [] => true | c :: r => g_minimal c r && g_respects_rt r end.
+
+(* what the calls say about one ref k *)
+Definition proj (k : nat) (c : gcall) : option call :=
+  let mk o r := Some {| c_inv := g_inv c; c_ret := g_ret c; c_op := o; c_res := r |} in
+  match g_op c with
+  | GReceive k' => if Nat.eqb k k' then mk KReceive true else None
+  | GRemove k' => if Nat.eqb k k' then mk KRemove true else None
+  | GRead k' seen => if Nat.eqb k k' then mk KRead seen else None
+  | GEnum listed => mk KRead (existsb (Nat.eqb k) listed)
+  end.
+Fixpoint project (k : nat) (s : list gcall) : list call :=
+  match s with [] => [] | c :: r => match proj k c with Some x => x :: project k r | None => project k r end end.
